@@ -236,11 +236,13 @@ CStep(c, iv, o) ==
         ELSE IF wr(r)
         THEN IF c.atom[r]
              THEN IF last                                             \* commit (a same-cycle device write may win)
-                  THEN [why |-> "A", alts |-> IF devw(r) THEN {commit(r), <<devv(r), {}>>} ELSE {commit(r)}]
+                  THEN [why |-> "A", alts |-> {commit(r)}]            \* the bus write takes effect, also against a same-cycle device write
                   ELSE [why |-> "A",                                  \* staged only: the bus does not change the register
                         alts |-> {<<IF devw(r) THEN devv(r) ELSE cur[r], {}>>}]
-             ELSE IF devw(r)                                          \* same-cycle conflict: undocumented, any winner
-                  THEN [why |-> "D", alts |-> {<<over(cur[r]), {}>>, <<devv(r), {}>>, <<over(devv(r)), {}>>}]
+             ELSE IF devw(r)                                          \* same-cycle conflict: the addressed word takes the bus data
+                  \* ("a bus write changes exactly the addressed register bits"); the other words may keep
+                  \* their value or take the device's
+                  THEN [why |-> "D", alts |-> {<<over(cur[r]), {}>>, <<over(devv(r)), {}>>}]
                   ELSE [why |-> "W", alts |-> {<<over(cur[r]), {}>>}]
         ELSE IF devw(r) THEN [why |-> "D", alts |-> {<<devv(r), {}>>}]
         ELSE [why |-> "I", alts |-> {<<cur[r], {}>>}]
